@@ -335,13 +335,15 @@ CONDS = [
     "a0", "not a0", "a0 and a1", "a0 or a1", "not (a0 and a1)", "(a0 or a1) and a2", "not a0 and not a1", "x > y", "x <= y and a0",
     "any([a0, a1])", "all((a0, a1))", "a0 or not a2",
     "x >= y", "not x >= y", "not x > y", "x == y", "not x == y", "x != y", "not (x < y)", "not x <= y or a0", "x < y < z",
+    "x", "x - y", "not x",
     "a0 and not a1 and a2", "a0 or (a1 and a2)", "a0 or a1 or a2", "not (a0 or a1) and a2", "(a0 and a1) or (not a0 and a2)", "a0 and (a1 or not a2)",
 ]
 EXPRS = [
     "x", "y + 1.0", "2.0", "x + y", "min(x, y)", "max(x, y)", "min([x, y])", "max((x, z))", "sum([x, y])", "sum((x, y, z))",
     "x if a2 else y", "x if a1 else (y if a2 else z)", "max(x, 0.0) + min(y, z)", "max(min(x, y), z)", "min(max(x, y), z)",
+    "-x", "abs(x - y)", "x * (y - z)", "x // 2.0 + y % 2.0", "True", "False",
 ]
-EXPRS_SMALL = ["x", "y + 1.0", "min(x, y)", "x if a2 else y", "max([y, z])", "max(min(x, y), z)"]
+EXPRS_SMALL = ["x", "y + 1.0", "min(x, y)", "x if a2 else y", "max([y, z])", "max(min(x, y), z)", "True if x else False", "False"]
 CONDS_SMALL = ["a0", "not a1", "a0 and a1", "x > y", "a1 or a2", "not x >= y", "x != z", "a0 and not a1 and a2", "a0 or (a1 and a2)"]
 CONDS_TINY = ["a0", "not a1", "x > y", "a1 or a2"]
 EXPRS_TINY = ["x", "y + 1.0", "min(max(x, y), z)", "x if a2 else z"]
@@ -367,6 +369,7 @@ def programs():
                 for e0 in ("0.0", "x"):
                     yield "augassign-if-else-aug", HEAD + f"    out = {e0}\n    if {c}:\n        out += {e1}\n    else:\n        out += {e2}\n    return out\n"
                     yield "augassign-if-else-assign", HEAD + f"    out = {e0}\n    if {c}:\n        out += {e1}\n    else:\n        out = {e2}\n    return out\n"
+                    yield "augassign-sub", HEAD + f"    out = {e0}\n    if {c}:\n        out -= {e1}\n    else:\n        out -= {e2}\n    return out\n"
                     yield "augassign-mul", HEAD + f"    out = {e0}\n    if {c}:\n        out *= {e1}\n    else:\n        out *= {e2}\n    return out\n"
     for c1 in CONDS_SMALL:
         for c2 in CONDS_SMALL:
@@ -410,7 +413,7 @@ def features(src):
 
 
 def _grid():
-    fl = list(itertools.product([1.0, 2.0, 3.0], repeat=3))
+    fl = list(itertools.product([-1.0, 0.0, 2.0, 3.0], repeat=3))
     bl = list(itertools.product([False, True], repeat=3))
     pts = [(f, b) for f in fl for b in bl]
     cols = {}
@@ -576,7 +579,7 @@ def run(tier):
         print("harness error: C09 exploration is vacuous (hardly any program/function could be compared)", rep.extra)
         return 2
     rep.bound = {"corpus_functions": len(names), "max_atomic_tests_per_function": 12, "grammar_depth": 2,
-                 "grammar_inputs_per_program": 216, "condition_alphabet": len(CONDS), "expression_alphabet": len(EXPRS)}
+                 "grammar_inputs_per_program": 512, "condition_alphabet": len(CONDS), "expression_alphabet": len(EXPRS)}
     rep.assumptions = [
         "path mode: atomic tests (comparisons, bare booleans in test position) answer from the harness; all 2^m valuations per function are "
         "run in scalar form and at once in array form, arguments carry distinct values per position",
@@ -587,6 +590,6 @@ def run(tier):
         "(A) every internal policy function: source instrumented so that every atomic test is a harness-controlled choice, real make_vectorizable "
         "applied, all 2^m paths compared position by position; (B) every program of the documented restricted style up to depth 2 over 3 float and "
         "3 boolean arguments (if/elif/else with assignment, augmented assignment, return, nested if, conditional expressions, and/or/not, "
-        "min/max/sum/any/all) on all 216 argument combinations; (C) make_vectorizable on every real function leaves module globals, the "
+        "min/max/sum/any/all) on all 512 argument combinations (floats from {-1, 0, 2, 3}, all boolean patterns); (C) make_vectorizable on every real function leaves module globals, the "
         "registry, the function and a later simulation unchanged. A state is one function / program."
     )
